@@ -68,6 +68,13 @@ def gen_index(rng, runs, decreasing):
         keys = [lo]
         for s in steps:
             keys.append(keys[-1] + s)
+    if g >= 2 and rng.random() < 0.12:
+        # consecutive keys more than 2^31-1 apart (from the bottom to the top of the int32
+        # range): a comparison made through the int32 difference of two keys wraps around
+        cut = rng.randrange(1, g)
+        lo_part = [I32MIN + rng.randint(0, 5) + j for j in range(cut)]
+        hi_part = [I32MAX - rng.randint(0, 5) - (g - 1 - j) for j in range(cut, g)]
+        keys = lo_part + hi_part
     idx = [k for k, r in zip(keys, runs) for _ in range(r)]
     if decreasing and len(idx) >= 2:
         how = rng.random()
@@ -81,6 +88,9 @@ def gen_index(rng, runs, decreasing):
                 idx[i - 1], idx[i] = idx[i], idx[i - 1]
             else:
                 idx[pos] = idx[pos - 1] - 1
+        elif how < 0.8 and idx[0] < idx[-1]:   # a drop of (almost) the whole int32 range
+            idx[pos:] = [min(I32MIN + 3, idx[0] - 1)] * (len(idx) - pos)
+            idx[:pos] = [I32MAX - 2] * pos
         else:                  # the last element returns to the first group
             idx[-1] = idx[0] - (0 if idx[0] < idx[-1] else 1)
         idx = [min(max(v, I32MIN), I32MAX) for v in idx]
